@@ -27,6 +27,8 @@ fn schedule_case(ctx: &WorkerCtx, rep: &mut WorkerReport, case_seed: u64, blocks
     let (net, _) = net_for_shard(ctx.shard);
     let mut rng = crate::rng::Rng::new(case_seed);
     let mut w = World::new(case_seed, rpc::chain_id_for(net));
+    let scale = scale_world(&mut w, case_seed, true, ctx.thorough());
+    rep.set_add("scale_profiles", scale);
     w.profile.p_empty_block = 10;
     w.profile.max_txs_per_block = 6;
     // primary: never commits
@@ -139,6 +141,8 @@ fn discard_case(ctx: &WorkerCtx, rep: &mut WorkerReport, case_seed: u64) {
     let (net, _) = net_for_shard(ctx.shard);
     let mut rng = crate::rng::Rng::new(case_seed ^ 0xD15C);
     let mut w = World::new(case_seed, rpc::chain_id_for(net));
+    let scale = scale_world(&mut w, case_seed, true, ctx.thorough());
+    rep.set_add("scale_profiles", scale);
     w.profile.p_empty_block = 10;
     let mut a = new_driver("C03");
     let pre = rng.range(2, 10);
